@@ -38,7 +38,25 @@ Theorem C03_concurrent_regression_refuted :
   length (ds_inbox (fst consecutive_result)) = 2%nat /\ option_map d_fup (ds_row (fst consecutive_result)) = Some 6%N.
 Proof. exact concurrent_counter_regression_refuted. Qed.
 
+From Lospan Require Import Gen.Consts Model.Server Proof.ProjectionProof.
+(* The per-device step these theorems (and those of C06-C10) speak about IS the server model's global step - the
+   function the history correspondence runs against the real pipeline - whenever exactly one stored device
+   authenticates the frame; a frame nobody authenticates is no step at all; and the table stays keyed by EUI. *)
+Theorem C03_global_step_is_device_step :
+  forall (E D : list N -> list N -> list N) s f rx now dv,
+    tab_wf (s_tab s) -> (N.to_nat c_MinimumMessageSize <= length (rx_raw rx))%nat ->
+    filter (mic_ok E f (rx_raw rx)) (dt_by_devaddr (s_tab s) (devaddr_u32 (f_devaddr f))) = [dv] ->
+    let st := dt_get (s_tab s) (d_eui dv) in
+    uplink_data E D s f rx now
+    = (with_tab s (dt_put (s_tab s) (d_eui dv) (fst (l_uplink E D (s_apps s) st f rx 1 now))), snd (l_uplink E D (s_apps s) st f rx 1 now)).
+Proof. exact uplink_is_the_device_step. Qed.
+Theorem C03_table_stays_keyed :
+  forall t e st, tab_wf t -> (forall r, ds_row st = Some r -> d_eui r = e) -> tab_wf (dt_put t e st).
+Proof. exact tab_wf_put. Qed.
+
 Print Assumptions C03_step.
 Print Assumptions C03_seq.
 Print Assumptions C03_concurrent_copies_refuted.
 Print Assumptions C03_concurrent_regression_refuted.
+Print Assumptions C03_global_step_is_device_step.
+Print Assumptions C03_table_stays_keyed.
